@@ -56,7 +56,9 @@ Definition enc_stats (l : list stat) : sx := SL (map enc_stat l).
                                            real Pattern.match; calls = stats the consumer's
                                            callback received from the real filterFS.Walk.
    Model = normalisation + filter_walk.  Spec oracle = reference over the NAIVE verdict
-   (MatchesOrParentMatches semantics on every entry of the full tree). *)
+   (MatchesOrParentMatches semantics on every entry of the full tree); when the map table is
+   empty, in its flat form (filter of the full walk: selected, or path-prefix ancestor of a
+   selected entry), which Properties/C10.reference_nomap_is_flat proves equal. *)
 Definition run_1001 (input impl : sx) : sx :=
   match input with
   | SL [v; inc; exc; mt] =>
@@ -80,7 +82,10 @@ Definition run_1001 (input impl : sx) : sx :=
           | Some c =>
             let m := filter_walk pm mf c view in
             let model := SL [SN 0; enc_side (c_inc c); enc_side (c_exc c); enc_stats m] in
-            let o_naive := enc_stats (reference (keep_naive pm c) mf view) in
+            (* nil map on a view with distinct sibling names: the literal flat statement *)
+            let o_naive := enc_stats (if is_nil mtab && wf_tree view
+                                      then flat_reference (keep_naive pm c) view
+                                      else reference (keep_naive pm c) mf view) in
             let holds := sx_eqb o_naive calls in
             if holds then verdict model impl' true (SL [])
             else
